@@ -2,6 +2,7 @@ package props
 
 import (
 	"encoding/hex"
+	"fmt"
 	"math/rand"
 
 	"bsim/gen"
@@ -86,6 +87,11 @@ func blkp(b ref.Block) *ref.Block { return &b }
 
 func (h *hist) attenuateRandom() int {
 	p := h.pick(h.honest)
+	if h.r.Intn(8) == 0 {
+		// the holder first looks for a fact the token does not have, spelled with strings it has never seen
+		f := ref.Pred{Name: fmt.Sprintf("lookup_%d", h.r.Intn(3)), Terms: []ref.Term{ref.Str(fmt.Sprintf("unseen string %d", h.r.Intn(5))), ref.Int(int64(h.r.Intn(9)))}}
+		h.add(vm.Op{K: "blockid", A: p, F: &f})
+	}
 	t := h.attenuate(p, h.g.Block(3, 2, 2))
 	h.toks = append(h.toks, t)
 	h.honest = append(h.honest, t)
